@@ -86,6 +86,15 @@ class IntTheory:
         raise Unsupported("bitwise | on mathematical ints (use codec mode)")
 
     def bxor(self, a, b):
+        # x ^ 2**k flips bit k: exact for Python's unbounded two's-complement ints (z3 div / mod are floor-like for a
+        # positive divisor, as Python's // and % are)
+        for x, y in ((a, b), (b, a)):
+            c = self.as_const(y)
+            if c is not None and c > 0 and (c & (c - 1)) == 0:
+                bit = (x / z3.IntVal(c)) % z3.IntVal(2)
+                return z3.If(bit == 0, x + z3.IntVal(c), x - z3.IntVal(c))
+            if c == 0:
+                return x
         raise Unsupported("bitwise ^ on mathematical ints (use codec mode)")
 
     def add(self, a, b, obl):
